@@ -450,7 +450,7 @@ def globals : List GlobalSite := [
   -- would raise AttributeError, which is caught
   ⟨"parser/slyparse.py", "_monkeypatch_sly", "foreign_attr_delete", "del sly.yacc.YaccProduction.__setattr__"⟩,
   -- warning registry, as above
-  ⟨"_import.py", "_jaqal_find_spec_relative", "process_state_call", "warnings.warn('Not searching for Python eggs: \"packaging\" module not found')"⟩,
+  ⟨"_import.py", "_jaqal_find_spec_in", "process_state_call", "warnings.warn('Not searching for Python eggs: \"packaging\" module not found')"⟩,
   -- gate-definition import: (re)binds sys.modules[name] to the module being executed; a reload replaces
   -- the entry, so a later call sees the module text of ITS time.  Not idempotent under failure: if
   -- exec_module raises, the half-initialised entry stays in sys.modules (C16 risk, exercised by corr `history`)
